@@ -32,14 +32,29 @@ class ShimLock:
         self.acquisitions = 0
         self.contended = 0
 
+    def _took(self):
+        # ownership bookkeeping for lockset monitors (re-entrant locks are counted)
+        me = threading.get_ident()
+        if getattr(self, 'owner', None) == me:
+            self.depth += 1
+        else:
+            self.owner, self.depth = me, 1
+
+    def held_by_me(self):
+        return getattr(self, 'owner', None) == threading.get_ident() and self.depth > 0
+
     def acquire(self, blocking=True, timeout=-1):
         s = CURRENT
         if s is None or not s.managed():
-            return self.real.acquire(blocking, timeout)
+            ok = self.real.acquire(blocking, timeout)
+            if ok:
+                self._took()
+            return ok
         spins = 0
         while True:
             if self.real.acquire(False):
                 self.acquisitions += 1
+                self._took()
                 s.progress()
                 return True
             if not blocking:
@@ -49,6 +64,10 @@ class ShimLock:
             s.blocked_yield(self.name, spins)
 
     def release(self):
+        if getattr(self, 'owner', None) == threading.get_ident():
+            self.depth -= 1
+            if self.depth <= 0:
+                self.owner = None
         self.real.release()
         s = CURRENT
         if s is not None and s.managed():
